@@ -104,7 +104,9 @@ func (c *velChain) order(id int) []int {
 	for i := range o {
 		o[i] = (i + id) % n
 	}
-	return o
+	// the first authority's session key is registered under a second entry as well: a key listed twice holds two places in
+	// the secondary rotation and one identity in the node (seed C24e)
+	return append(o, o[0])
 }
 
 func (c *velChain) dataRaw(id int) *types.EpochDataRaw {
@@ -295,15 +297,11 @@ func TestVerifEpochLottery(t *testing.T) {
 					fail("allowed-slots", s.Res.Cfg, fmt.Sprint(desc.data.allowedSlots), "wrong-config")
 					break
 				}
-				wantIdx := -1
-				for i, k := range c.order(s.Res.Lottery.Data) {
-					if k == node {
-						wantIdx = i
-					}
-				}
+				// an entry of the list that carries the node's key (a key listed twice has two)
+				ord := c.order(s.Res.Lottery.Data)
 				res.Cmp()
-				if int(desc.data.authorityIndex) != wantIdx {
-					fail("authority-index", fmt.Sprint(wantIdx), fmt.Sprint(desc.data.authorityIndex), "wrong-index")
+				if ai := int(desc.data.authorityIndex); ai < 0 || ai >= len(ord) || ord[ai] != node {
+					fail("authority-index", fmt.Sprintf("an index of node %d in %v", node, ord), fmt.Sprint(desc.data.authorityIndex), "wrong-index")
 					break
 				}
 				if s.O.Last >= 0 {
